@@ -39,6 +39,10 @@ mod test;
 
 #[cfg(any(feature = "dist-client", feature = "dist-server"))]
 pub use crate::dist::cache::TcCache;
+/// Verification hook (only with `--cfg sccache_verif`): the client-side
+/// toolchain store, for the external harness.
+#[cfg(all(sccache_verif, feature = "dist-client"))]
+pub use crate::dist::cache::ClientToolchains;
 
 // TODO: paths (particularly outputs, which are accessed by an unsandboxed program)
 // should be some pre-sanitised AbsPath type
